@@ -56,6 +56,21 @@ var Runners = map[string]Runner{}
 // are nil, the tapes are generated from the seed; otherwise they are replayed
 // (exhausted tapes yield zeros).
 func RunOne(t *testing.T, prop string, seed uint64, plan, sched []int, replay bool, params map[string]int, trace bool) (res *Result) {
+	mode := ModeGen
+	if replay {
+		mode = ModeReplay
+	}
+	return RunOneMode(t, prop, seed, plan, sched, mode, params, trace)
+}
+
+const (
+	ModeGen    = iota // tapes generated from the seed
+	ModeReplay        // tapes replayed; exhausted tapes read as zeros
+	ModeExtend        // given tapes replayed, then extended from the seed's PRNG
+)
+
+// RunOneMode is RunOne with an explicit tape mode.
+func RunOneMode(t *testing.T, prop string, seed uint64, plan, sched []int, mode int, params map[string]int, trace bool) (res *Result) {
 	res = &Result{Prop: prop, Seed: seed}
 	start := time.Now()
 	runner := Runners[prop]
@@ -99,9 +114,13 @@ func RunOne(t *testing.T, prop string, seed uint64, plan, sched []int, replay bo
 			}()
 			pt := &Tape{Vals: append([]int(nil), plan...)}
 			st := &Tape{Vals: append([]int(nil), sched...)}
-			if !replay {
+			switch mode {
+			case ModeGen:
 				pt.rng = NewRng(seed*2 + 1)
 				st.rng = NewRng(seed*2 + 2)
+			case ModeExtend:
+				pt.rng = NewRng(seed*2 + 1001)
+				st.rng = NewRng(seed*2 + 1002)
 			}
 			w = NewWorld(seed, pt, st)
 			w.S.TraceOn = trace
